@@ -418,11 +418,12 @@ impl<K: El, V: El> Mon<K, V> {
         self.post(op, &st0, loc0, &out)?;
         if let Some(t) = &mut self.transcript {
             let line = format!(
-                "{} => {:?} len={} cap={}",
+                "{} => {:?} len={} cap={} split={}",
                 op.encode(),
                 out.act,
                 self.map.len(),
-                self.map.capacity()
+                self.map.capacity(),
+                st0.old.is_some() as u8
             );
             t.push(line);
         }
@@ -679,7 +680,9 @@ impl<K: El, V: El> Mon<K, V> {
                     // weak bounds for multi-effect chains
                     let l0 = if growth_predicted { st0.main.len } else { old0.unwrap_or(0) };
                     let l1 = old1.unwrap_or(0);
-                    if old0.is_some() && l1 > l0 {
+                    // with two key-adding effects the first may complete the pending resize and
+                    // the second start a new one, so "grew" is only meaningful for a single add
+                    if old0.is_some() && l1 > l0 && adds <= 1 {
                         soft!(self, "C03", "old table grew from {} to {} during {}", l0, l1, enc());
                     }
                     if adds > 0 && old1 == Some(0) {
@@ -727,7 +730,9 @@ impl<K: El, V: El> Mon<K, V> {
                     soft!(self, "C02", "{} resized the main table", enc());
                 }
                 // C03: bounded completion
-                if growth_predicted {
+                if !exact {
+                    self.since_growth = None;
+                } else if growth_predicted {
                     let left = st0.main.len.saturating_sub(r.min(st0.main.len));
                     self.since_growth = if left > 0 { Some((st0.main.len, 1)) } else { None };
                 } else if adds > 0 {
